@@ -94,6 +94,7 @@ class Tracker:
                 if missing or recv.get(k0, {}).get("closed"):
                     self.viol.append(("C14", f"a full window of {op['window']} pipelined requests was not served after earlier requests timed out: unanswered {missing}, closed={recv.get(k0, {}).get('closed')}", t))
             members_before = {c: set(m) for c, m in self.members.items()}
+            self.owner_before = dict(self.owner)
             users_before = dict(self.user)
             live_before = set(self.live)
             # ---- requests sent in this op (registered first: replies arrive within the same op)
@@ -402,6 +403,14 @@ class Tracker:
                     self.viol.append(("C18", tagp + f"join of {who} in {ch}: conn {k} ({u}) saw {n} MEMBER_JOINED events, expected {want}", t))
         for (ch, who, k0) in leaves:
             audience = members_before.get(ch, set())
+            # the owner flag of the departure: true exactly when the leaver was the channel's owner (as announced so far)
+            known_owner = getattr(self, "owner_before", {}).get(ch)
+            if known_owner is not None:
+                for k in live_before:
+                    for f in events(k, b"MEMBER_LEFT", ch, who):
+                        if sl.frame_get(f, "owner") is not (known_owner == who):
+                            self.viol.append(("C18", tagp + f"MEMBER_LEFT of {who} from {ch} carries owner={sl.frame_get(f, 'owner')} although the owner is {known_owner}", t))
+                            break
             for k in live_before:
                 u = users_before.get(k)
                 n = len(events(k, b"MEMBER_LEFT", ch, who))
